@@ -689,6 +689,17 @@ impl Network {
                             continue;
                         }
 
+                        // a validly signed scratchpad of another owner does not belong at this key
+                        if NetworkAddress::from_scratchpad_address(*scratchpad.address())
+                            .to_record_key()
+                            != *key
+                        {
+                            warn!(
+                                "Rejecting Scratchpad for {pretty_key} that belongs to another address during split record error"
+                            );
+                            continue;
+                        }
+
                         if let Some(old) = &valid_scratchpad {
                             if old.count() >= scratchpad.count() {
                                 info!(
